@@ -166,6 +166,10 @@ func init() {
 		// the error belongs to the tag, not to the last statement of what completed
 		after := []string{"<%= ok() + undefinedThing %>", "<% let z = okm() + fail1() %>", "<%= [okm(), xs[99]] %>", "<%= okm() + 1 + \"a\" %>",
 			"<%= blk() { %>\nx\n<%= 1 %>\n<% } + undefinedThing %>", "<%= rec1(okm(), undefinedThing) %>", "<% let z = [ok(), okm()][5] %>"}
+		// ... or FOLLOWS, in the same tag, a failure that was tolerated (raised inside a function
+		// body on another line)
+		after = append(after, "<%= [!adm(), undefinedThing] %>", "<%= (adm() == nil) + fail1() %>", "<% let z = [adm() || true, xs[99]] %>",
+			"<%= if (adm()) { %>a<% } else if (adm()) { %>b<% } else { %><%= 1 %><% } + undefinedThing %>", "<%= rec1(!adm(), undefinedThing) %>")
 		defs2 := defs + "<% let okm = fn() {\n let q = 1\n return q } %>\n"
 		for _, a := range after {
 			for _, w := range c15wraps {
